@@ -1023,9 +1023,9 @@ theorem fs_stepCreated {p : Pool} (h : FKS M p) (t : Nat) (tk : PTask) : FKS M (
     · exact fs_afterWorker h0 _ _
     · exact fs_suspendTask (fs_modTask h0 _ _) _ _
 
-theorem fs_workerNext {p : Pool} (h : FKS M p) (t : Nat) : FKS M (p.workerNext t) := by
+theorem fs_workerNext {p : Pool} (h : FKS M p) (t : Nat) (tk : PTask) : FKS M (p.workerNext t tk) := by
   unfold workerNext
-  exact fs_suspendTask (fs_modTask (fs_logEv h _) _ _) _ _
+  exact fs_suspendTask (fs_runHooks (fs_modTask (fs_logEv h _) _ _) _ _) _ _
 
 theorem fs_workerCancelled {p : Pool} (h : FKS M p) (t : Nat) (tk : PTask) : FKS M (p.workerCancelled t tk) := by
   unfold workerCancelled
@@ -1044,7 +1044,7 @@ theorem fs_stepInWorker {p : Pool} (h : FKS M p) (t : Nat) (tk : PTask) : FKS M 
   · exact fs_workerCancelled (fs_modTask h _ _) t tk
   · split
     · split
-      · exact fs_workerNext h t
+      · exact fs_workerNext h t tk
       · exact fs_afterWorker h _ _
     · exact fs_afterWorker h _ _
     · exact h
